@@ -135,6 +135,19 @@ CHECKS["C13"] = dict(
     technique="explicit-state BFS over operation histories of the real CLI binary against a reference model of the output tree; exhaustive permutation of file orders through the API",
 )
 
+CHECKS["C03"] = dict(
+    category="exploration",
+    text="Exhaustive input spaces through the whole pipeline (mamba_to_python, which also renders every diagnostic) on a fresh 8 MiB-stack thread of an isolated driver process with overflow checks on: S1 all strings over a 14-symbol alphabet up to length 4 (5); S2 all token sequences over a 48-token vocabulary up to length 2 (3; 4 over 20 tokens); S3 every single-token mutation of the 30 smallest (all) repository samples and of generated programs, and mutated/valid file pairs; S4 33 structural families indexed by n, doubling to 64 (2048): nesting of parentheses / lists / calls / blocks / else-if / match, operator, power, and, comparison, unary and not chains, long files, long strings and interpolations, many parameters / arguments / classes / fields / arms / handle arms, property chains, deep tuple and list types, inheritance chains, unions of many; S5 ALL parent graphs on <= 3 classes (every class picks any subset of {itself, the others}) x 6 uses, 50 degenerate definition forms; S6 grammar-slot enumeration: definition targets x values, reassignment targets x operators x values, handle-arm binders x annotations x bodies, match patterns x subjects, for targets x iterables, class heads, function heads (4 600 inputs) so that diagnostics land on every token kind; the whole M0 pool. Verdict must be Ok(non-empty) or Err(non-empty): no panic, no abort (stack overflow), no timeout; S4 timings must grow no worse than n^4 between doubling sizes.",
+    design_ref="DESIGN.md §4 C03", note="Deadline 10 s per small input (normal: 3-10 ms), failures re-confirmed in isolation. Doubling stops after the first size needing > 12 s; the completed n per family is in the evidence.",
+    technique="bounded-exhaustive input enumeration with crash / hang detection in an isolated process",
+)
+CHECKS["C19"] = dict(
+    category="exploration",
+    text="Every rejection produced by: the C03 spaces (strings up to length 3 (4), token pairs, all parent graphs, the grammar-slot product), the negative halves of C05, C06, C07, C09 (fault line known by construction) and C08, single faults injected at EVERY line of M0 pool programs of <= 14 lines (lexical: ' !' appended, TAB prepended; syntactic: ' )' appended, ' := 1 := 2' appended) and every multi-file project of C13 with one faulty file. Every rendered diagnostic is parsed: at least one per rejection; a header '──→ path[:line:col]' whose path is the relative path given for that source; 1 <= line <= #lines(+1), 1 <= column <= len(line)+2; every quoted 'N | text' line equals line N of the named file verbatim; a crash instead of a diagnostic is a violation; for single faults some header or caret line is on the fault line; in projects no healthy file is named.",
+    design_ref="DESIGN.md §4 C19", note="Causes are read from the rendered text (no hook). Known findings: context errors of multi-file runs carry no file (C19-F1); type mismatches are positioned at another textually equal expression (C19-F2).",
+    technique="bounded-exhaustive fault injection (every line x fault kinds; by-construction type faults) with a parser of the rendered diagnostics as oracle",
+)
+
 REASON_PENDING = "check not built yet in this session (see DESIGN.md Appendix D build order); nothing is claimed for it"
 
 
